@@ -3,5 +3,8 @@ CONSTANTS
   MaxN = 0
   Kinds = {"pass"}
   HKinds = {"rec"}
-  Reverse = FALSE
+  Spares = {0}
+  MaxOverlap = 0
+  Rounds = 1
+  Variant = "asWritten"
 CHECK_DEADLOCK FALSE
